@@ -41,7 +41,11 @@ def deep_pair(rng, group, mod, root_index, depth, cfg):
     (outermost level first) that is built iteratively."""
     n = len(group)
     levels = []
-    for level in range(depth + 1):
+    level = -1
+    while True:
+        level += 1
+        if level > depth and levels[-1]["edge"] != "ref":
+            break  # (a value cannot end at a required member class: it goes on to the next edge it can end at)
         d = group[(root_index + level) % n]
         f = {}
         edge = None
@@ -76,7 +80,7 @@ class C07(PropBase):
     FAULT_KINDS = FAULTS
     RULE = (
         "A case is one round trip (or build) over a generated recursive world: cycles over 1-3 classes (dataclass / plain / TypedDict "
-        "/ NamedTuple) closed through Optional, list, dict, tuple[X, ...] or X | None edges; any class of the cycle or a container of "
+        "/ NamedTuple) closed through Optional, list, dict, tuple[X, ...] or X | None edges, some hops of a longer cycle being plain member classes; any class of the cycle or a container of "
         "one (list, dict, Optional, tuple) as root; values nested d levels (quick d <= 12, thorough d <= 150). Within the headroom "
         "(10*d + 250 frames below the recursion limit in force) the step must succeed, restore the value (C01), conform at every level "
         "(C03) and marshal to plain data at every level; beyond it only RecursionError is admissible. Non-trivial: d >= 2 and (first call "
@@ -187,11 +191,11 @@ class C07(PropBase):
                     lv["tag"] = "$dict"
                     for fk, fv in list(lv["f"].items()):
                         lv["f"][fk] = gen.scalar_wire("x", fv) if not isinstance(fv, dict) or any(t_ in fv for t_ in ("$list", "$dict", "$tuple")) else _wire_scalar(fv)
-                if rng.random() < 0.4 and all(lv["edge"] in ("union", "list", "dict") for lv in wl[:-1]):
+                if rng.random() < 0.4 and all(lv["edge"] in ("union", "list", "dict", "ref") for lv in wl[:-1]):
                     # ... refused, then repaired in place and submitted again (the same objects)
                     path = []
                     for lv in wl[:-1]:
-                        path += {"union": ["nxt"], "list": ["nxt", 0], "dict": ["nxt", "k"]}[lv["edge"]]
+                        path += {"union": ["nxt"], "ref": ["nxt"], "list": ["nxt", 0], "dict": ["nxt", "k"]}[lv["edge"]]
                     steps.append({"op": "retry_repaired", "t": t, "x": {"$chain": copy.deepcopy(wl)}, "path": path, "field": "v",
                                   "bad": {"$list": [{"$list": []}]}, "v": v, "mod": "vw0", "vdepth": d})
                     continue
